@@ -31,7 +31,17 @@ RULE = ('self_sign / sign_req / derive_cert / new_cert with subjects EC P-256/38
         'signer sweeping 0<=actual<=reserved; key names as URI / wire / component list; issuer id as text (valid and malformed URI '
         'components) and as component; start times on year / leap-day / month / day boundaries, years 1000..9999 (and <1000, overflow), '
         'naive, UTC and fixed-offset zones (-12:00..+14:00, odd minutes); durations 0..20 years, negative, overflowing; clock '
-        'readings on 29 Feb and year ends.  non-trivial = a certificate was produced; distinct by case hash')
+        'readings on 29 Feb and year ends.  Signer histories: ONE signer object (every key type that carries a key locator: ECDSA '
+        'P-256/384/521, RSA, Ed25519, HMAC) is used first (self_sign / sign_req / derive_cert / new_cert, or signing a Data / an '
+        'Interest), then its key locator is reconfigured in one of 12 ways (a new URI string / component list / encoded name as '
+        'bytes, bytearray, memoryview assigned to key_locator_name; the list it holds edited in place by item assignment, append, '
+        'slice assignment, del; the bytearray holding the encoded name rewritten; caller-owned component buffers rewritten; a new '
+        'signer object of the same key), then a certificate is issued, reconfigured again (often back to the first locator), issued '
+        'again, two reconfigurations with no use in between; two signer objects of one key configured differently and used '
+        'alternately; random histories of 4-10 steps.  Locators: the bare key, certificate names of that key (two issuers, three '
+        'versions), other identities, one-component and empty names.  Every certificate of a history is judged by the whole oracle, '
+        'its KeyLocator against a private copy of the locator configured in the signer taken just before that issuance (class '
+        'key-locator-reused-signer).  non-trivial = a certificate was produced; distinct by case hash')
 ASSUMPTIONS = ['the signature primitives are external (pycryptodome): the model receives the signature bytes as data and decides which '
                'bytes are signed and where the signature goes; the run verifies each certificate with the real verify_* functions',
                'datetime / strftime are CPython: modelled from broken-down fields (proleptic Gregorian day count), compared on every case',
@@ -140,16 +150,273 @@ def pub_bits(keys, spec):
     return keys.ec[spec].public_key().export_key(format='DER')
 
 
+# ---- signer histories: ONE signer object used, reconfigured, used again --------------------------------------
+def snapshot(v):
+    """a private copy of a (possibly mutable, possibly shared) NonStrictName"""
+    if v is None or isinstance(v, (str, bytes)):
+        return v
+    if isinstance(v, (bytearray, memoryview)):
+        return bytes(v)
+    return [snapshot(x) for x in v]
+
+
+def uri_of(comps):
+    from ndn.encoding import Name
+    try:
+        return 'none' if comps is None else Name.to_str(comps)
+    except Exception:   # noqa
+        return repr(comps)
+
+
+def locator_pool():
+    """key locator names an issuer is configured with in turn: its bare key, the certificate it obtained (key name +
+    issuer + version), another version of it, the key of another identity, same-length respellings, the empty name"""
+    c = lambda b: G.tlv(8, b)      # noqa
+    key = [c(b'key'), c(b'KEY'), c(b'\x01')]
+    return [key, key + [c(b'self'), G.tlv(54, b'\x01')], key + [c(b'ca'), G.tlv(54, b'\x00\x00\x01\x8b\xcf\xe5\x68\x00')],
+            key + [c(b'ca'), G.tlv(54, b'\x02')], [c(b'kez'), c(b'KEY'), c(b'\x02')], [c(b'other'), c(b'site'), c(b'KEY'), c(b'k-2')],
+            [c(b'key'), c(b'KEY'), G.tlv(8, bytes(range(8)))], [c(b'k')], []]
+
+
+# how a locator is handed to the signer: form of the value x (assign a new object | change the object it holds in place)
+SET_HOWS = ['assign-str', 'assign-list', 'assign-wire', 'assign-bytearray', 'assign-view', 'mutate-list-item',
+            'mutate-list-append', 'mutate-list-slice', 'mutate-list-del', 'mutate-bytearray', 'mutate-component', 'ctor']
+
+
+def apply_set(sg, how, comps, make):
+    """Reconfigure the key locator of signer `sg` to the name `comps`.  assign-*: a new object is assigned to the public
+    attribute key_locator_name; mutate-*: the object the signer holds is edited in place (made mutable first -- by an
+    assignment that does not change the name -- when it is not: that assignment is part of the step); ctor: a new
+    signer object of the same key is made with that locator (returned; the caller replaces the object)."""
+    from ndn.encoding import Name
+    comps = [bytes(x) for x in comps]
+    if how == 'ctor':
+        return make(comps)
+    cur = getattr(sg, 'key_locator_name', None)
+    curc = [bytes(x) for x in Name.normalize(cur)]
+    if how == 'assign-str':
+        sg.key_locator_name = Name.to_str(comps)
+    elif how == 'assign-list':
+        sg.key_locator_name = list(comps)
+    elif how == 'assign-wire':
+        sg.key_locator_name = bytes(Name.to_bytes(comps))
+    elif how == 'assign-bytearray':
+        sg.key_locator_name = bytearray(Name.to_bytes(comps))
+    elif how == 'assign-view':
+        sg.key_locator_name = memoryview(bytes(Name.to_bytes(comps)))
+    elif how in ('mutate-list-item', 'mutate-list-append', 'mutate-list-slice', 'mutate-list-del'):
+        if not isinstance(cur, list):
+            cur = sg.key_locator_name = list(curc)
+        if how == 'mutate-list-slice' or not (comps and curc):
+            cur[:] = comps
+        elif how == 'mutate-list-item':          # as many leading components as both have, then the rest
+            for i in range(min(len(cur), len(comps))):
+                cur[i] = comps[i]
+            del cur[len(comps):]
+            cur.extend(comps[len(cur):])
+        elif how == 'mutate-list-append':
+            del cur[:]
+            for x in comps:
+                cur.append(x)
+        else:
+            while cur:
+                del cur[-1]
+            cur += comps
+    elif how == 'mutate-bytearray':              # the encoded name in a buffer the caller keeps and rewrites
+        if not isinstance(cur, bytearray):
+            cur = sg.key_locator_name = bytearray(Name.to_bytes(curc))
+        cur[:] = Name.to_bytes(comps)
+    else:                                        # mutate-component: every component a caller-owned bytearray
+        if not (isinstance(cur, list) and len(cur) == len(comps) and all(isinstance(x, bytearray) for x in cur)
+                and all(len(x) == len(y) for x, y in zip(cur, comps))):
+            sg.key_locator_name = [bytearray(x) for x in comps]
+        else:
+            for x, y in zip(cur, comps):
+                x[:] = y
+    return sg
+
+
+def info_value(si):
+    """the SignatureInfo a signer wrote, as a model value.  The key locator name may have been written in any accepted
+    representation (URI string, encoded name, component list): the model is handed the name it denotes."""
+    from ndn.encoding import Name
+    kl = getattr(si, 'key_locator', None)
+    nm = getattr(kl, 'name', None)
+    if nm is None or (isinstance(nm, list) and all(isinstance(x, bytes) for x in nm)):
+        return D.from_py(P.siginfo_desc(), si)
+    kl.name = [bytes(x) for x in Name.normalize(nm)]
+    try:
+        return D.from_py(P.siginfo_desc(), si)
+    finally:
+        kl.name = nm
+
+
+class Rec(P.Rec):
+    def write_signature_info(self, signature_info):
+        self.inner.write_signature_info(signature_info)
+        self.info_obj = signature_info
+        self.info = info_value(signature_info)
+
+
+def scratch_info(signer):
+    from ndn.encoding import SignatureInfo
+    si = SignatureInfo()
+    signer.write_signature_info(si)
+    return info_value(si)
+
+
+def use_signer(sg, kind):
+    """an ordinary use of the signer between two issuances: it signs a Data / an Interest"""
+    from ndn.encoding import make_data, make_interest, MetaInfo, InterestParam
+    if kind == 'data':
+        make_data('/some/data', MetaInfo(), b'content', signer=sg)
+    else:
+        make_interest('/some/command', InterestParam(nonce=7), b'p', signer=sg)
+
+
+def new_signer_of(keys, label, comps):
+    """a fresh signer object for the key behind `label` with the key locator `comps` -> (signer, verify)"""
+    from ndn.security.signer import HmacSha256Signer
+    from ndn.security.signer.sha256_ecdsa_signer import Sha256WithEcdsaSigner
+    from ndn.security.signer.sha256_rsa_signer import Sha256WithRsaSigner
+    from ndn.security.signer.ed25519_signer import Ed25519Signer
+    verify = next(v for lb, _, v in keys.signers() if lb == label)
+    comps = [bytes(x) for x in comps]
+    if label == 'hmac':
+        return HmacSha256Signer(comps, keys.hmac_key), verify
+    if label == 'rsa':
+        return Sha256WithRsaSigner(comps, keys.rsa.export_key('DER')), verify
+    if label == 'ed25519':
+        return Ed25519Signer(comps, keys.ed.export_key(format='DER')), verify
+    return Sha256WithEcdsaSigner(comps, keys.ec[label[len('ecdsa-'):]].export_key(format='DER')), verify
+
+
+LOCATOR_SIGNERS = ['ecdsa-P-256', 'ecdsa-P-384', 'ecdsa-P-521', 'rsa', 'ed25519', 'hmac']
+
+
+def run_signer_history(ctx, M, keys, label, steps, verbose=False):
+    """steps: ['set', how, index into locator_pool() | component list] | ['use', 'data'|'interest'] | ['obj', k] (continue
+    with signer object k of the same key: two objects, both start with pool locator 0) | ['issue', case].
+    Every issued certificate goes through the whole oracle of one_case with the signer object in its current state."""
+    pool = locator_pool()
+    objs = {}
+
+    def obj(k):
+        if k not in objs:
+            objs[k] = new_signer_of(keys, label, pool[0])
+        return objs[k]
+    cur = 0
+    for i, st in enumerate(steps):
+        sg, verify = obj(cur)
+        if st[0] == 'set':
+            comps = pool[st[2]] if isinstance(st[2], int) else st[2]
+            try:
+                sg2 = apply_set(sg, st[1], comps, lambda c: new_signer_of(keys, label, c)[0])
+            except Exception as e:   # noqa  (assigning / editing an attribute cannot fail)
+                ctx.violation('signer', 'reconfiguration-raises', f'{type(e).__name__}: {e}', {'signer': label, 'history': steps[:i + 1]})
+                return
+            objs[cur] = (sg2, verify)
+            ctx.stat('signer-history.set.' + st[1])
+        elif st[0] == 'use':
+            try:
+                use_signer(sg, st[1])
+            except Exception as e:   # noqa
+                ctx.violation('signer', 'signing-raises', f'{type(e).__name__}: {e}', {'signer': label, 'history': steps[:i + 1]})
+                return
+            ctx.stat('signer-history.use.' + st[1])
+        elif st[0] == 'obj':
+            cur = st[1]
+        else:
+            one_case(ctx, M, keys, {**st[1], 'signer': label}, verbose=verbose, shared=(sg, verify), history=steps[:i])
+
+
+def issue_step(rng, fn, sub=None):
+    """a cheap, in-domain issuance (the history is what varies here, not the request)"""
+    case = {'fn': fn, 'key_name': ['str', '/sub/KEY/k1'], 'pub': sub or rng.choice(['P-256', 'ed25519', b'pk']),
+            'ts': rng.choice([7, 1790379136352])}
+    if fn in ('self', 'req'):
+        case['now'] = [2025, 6, 1, 12, 0, 0, 0, 0]
+        if fn == 'req':
+            case['now2'] = [2025, 6, 1, 12, 0, 0, 5, 0]
+    else:
+        case['issuer'] = ['text', 'ca'] if fn == 'derive' else ['comp', G.tlv(8, b'iss')]
+        case['start'] = [2025, 1, 1, 0, 0, 0, 0, rng.choice([None, 0])]
+        if fn == 'derive':
+            case['expire'] = 3600
+        else:
+            case['end'] = [2026, 1, 1, 0, 0, 0, 0, None]
+    return ['issue', case]
+
+
+def signer_histories(ctx):
+    """The family: first use (one of the four entry points, or signing a Data / an Interest) -> reconfiguration (12 ways)
+    -> issuance (entry point rotating) -> second reconfiguration (another way, back to an EARLIER locator or on to a
+    third) -> issuance; the same with two signer objects of one key configured differently and used alternately; random
+    longer histories.  All key types that carry a key locator."""
+    rng = ctx.rng
+    fns = ['self', 'req', 'derive', 'new']
+    firsts = fns + ['data', 'interest']
+    npool = len(locator_pool())
+    out = []
+    k = 0
+    for label in LOCATOR_SIGNERS:
+        for hi, how in enumerate(SET_HOWS):
+            for fi, first in enumerate(firsts):
+                k += 1
+                if not ctx.thorough and (k + hi) % len(firsts) != 0:
+                    continue            # quick: every (key type, way) with one first use, rotating
+                st = [['use', first] if first in ('data', 'interest') else issue_step(rng, first)]
+                l1 = 1 + (k % (npool - 1))
+                st += [['set', how, l1], issue_step(rng, fns[k % 4])]
+                how2 = SET_HOWS[(hi + 1 + k % (len(SET_HOWS) - 1)) % len(SET_HOWS)]
+                l2 = rng.choice([0, 0, l1, rng.randrange(npool)])      # often back to the first locator
+                if ctx.thorough or (k // len(firsts)) % 2 == 0:
+                    st += [['set', how2, l2], issue_step(rng, fns[(k + 1) % 4])]
+                if k % 3 == 0 and (ctx.thorough or k % 2 == 0):            # no use between two reconfigurations: only the last one counts
+                    st += [['set', how, rng.randrange(npool)], ['set', how2, rng.randrange(npool)], issue_step(rng, fns[(k + 2) % 4])]
+                out.append((label, st))
+        # two objects of one key, configured differently, alternately
+        for how in (['assign-list', 'mutate-list-item', 'ctor'] if ctx.thorough else [SET_HOWS[rng.randrange(len(SET_HOWS))]]):
+            l1, l2 = rng.sample(range(1, npool), 2)
+            st = [issue_step(rng, 'derive'), ['obj', 1], ['set', how, l1], issue_step(rng, 'new'), ['obj', 0], issue_step(rng, 'self'),
+                  ['set', how, l2], ['obj', 1], issue_step(rng, 'req'), ['obj', 0], issue_step(rng, 'derive')]
+            out.append((label, st))
+    for _ in range(ctx.n(6, 400)):
+        label = rng.choice(LOCATOR_SIGNERS)
+        st = []
+        for _ in range(rng.randint(3, 9)):
+            r = rng.random()
+            if r < 0.4:
+                st.append(['set', rng.choice(SET_HOWS), rng.randrange(npool)])
+            elif r < 0.5:
+                st.append(['use', rng.choice(['data', 'interest'])])
+            elif r < 0.58:
+                st.append(['obj', rng.randrange(2)])
+            else:
+                st.append(issue_step(rng, rng.choice(fns)))
+        st.append(issue_step(rng, rng.choice(fns)))
+        out.append((label, st))
+    return out
+
+
 # ---- one case -------------------------------------------------------------------------------------------------
-def one_case(ctx, M, keys, case, verbose=False):
-    """case: dict(fn, key_name, pub, signer, ts, + per-function time arguments); fully serialisable."""
+def one_case(ctx, M, keys, case, verbose=False, shared=None, history=None):
+    """case: dict(fn, key_name, pub, signer, ts, + per-function time arguments); fully serialisable.
+    shared = (signer object, verify): issue with THIS signer object (one that has been used and possibly
+    reconfigured before: signer histories) instead of a fresh one; the key locator demanded of the certificate is the
+    one configured in the signer at the moment of issuance (a private copy taken just before the call).
+    history = the serialisable steps that led to the state of that signer (goes into the failing case)."""
     from ndn.app_support import security_v2 as S
     from ndn.encoding import Name, Component, parse_data
     fn = case['fn']
     kn = case['key_name']
     pub = pub_bits(keys, case['pub'])
-    signer, verify, kl_name = make_signer(keys, case['signer'])
-    rec = P.Rec(signer) if signer is not None else None
+    if shared is None:
+        signer, verify, kl_name = make_signer(keys, case['signer'])
+    else:
+        signer, verify = shared
+        kl_name = snapshot(getattr(signer, 'key_locator_name', None))
+    rec = Rec(signer) if signer is not None else None
     ts = case['ts']
     saved = (S.timestamp, S.datetime)
     S.timestamp = lambda: ts
@@ -189,7 +456,7 @@ def one_case(ctx, M, keys, case, verbose=False):
     if signer is None:
         sg_sexp, sigval = [], b''
     else:
-        info = rec.info if rec.info is not None else P.scratch_info(signer)
+        info = rec.info if rec.info is not None else scratch_info(signer)
         reserved = rec.reserved if rec.reserved is not None else signer.get_signature_value_size()
         sg_sexp = [[D.val_sexp(v) for v in info[1]], reserved]
         sigval = rec.sig if rec.sig is not None else b'\x00' * reserved
@@ -209,6 +476,8 @@ def one_case(ctx, M, keys, case, verbose=False):
                    atime_sexp(mk_time(case['end']))], sigval]
     m = M(req)
     stratum = f"{fn}.{case['signer'] if not isinstance(case['signer'], list) else 'synthetic'}"
+    if shared is not None:
+        stratum = 'signer-history.' + stratum
     if verbose:
         print('implementation:', r if r != 'ok' else wire.hex(), '\nmodel:', m if is_err(m) else bytes(m[1][0]).hex())
     if is_err(m):
@@ -234,6 +503,8 @@ def one_case(ctx, M, keys, case, verbose=False):
 
     # ---- oracle on the implementation's certificate
     c = {**case, 'wire': wire}
+    if history is not None:
+        c['history'] = history
     issuer, nb, na = want
     # the domain of the property: the issuer id is a name component; the requested instants lie in years 1000..9999
     # (strftime('%Y') does not pad shorter years).  Outside it only the correspondence above is checked.
@@ -317,7 +588,12 @@ def one_case(ctx, M, keys, case, verbose=False):
             got_kl = None if got_kl is None or got_kl.name is None else [bytes(x) for x in got_kl.name]
             exp_kl = None if kl_name is None else [bytes(x) for x in Name.normalize(kl_name)]
             if got_kl != exp_kl:
-                ctx.violation(fn, 'key-locator', 'KeyLocator is not the one configured in the issuing signer', c)
+                if shared is None:
+                    ctx.violation(fn, 'key-locator', 'KeyLocator is not the one configured in the issuing signer', c)
+                else:
+                    ctx.violation(fn, 'key-locator-reused-signer',
+                                  f'KeyLocator {uri_of(got_kl)} is not the one configured in the issuing signer at the time of '
+                                  f'issuance, {uri_of(exp_kl)} (a signer object used and reconfigured before: see history)', c)
             if pc.signature_value is None or bytes(pc.signature_value) != rec.sig:
                 ctx.violation(fn, 'signature-value', 'SignatureValue is not what the signer wrote', c)
     except (AttributeError, TypeError) as e:
@@ -536,6 +812,9 @@ def run(ctx):
                                 'now': [y, mo, d, h, mi, s, 999999, 0],
                                 'now2': [y, mo, d, h, mi, s, 999999, 0] if (y, mo, d, h, mi, s) == (9999, 12, 31, 23, 59, 59) else
                                 fields(datetime(y, mo, d, h, mi, s) + timedelta(seconds=1)) + [3, 0]})
+    # 3b. signer histories: one signer object used, reconfigured (12 ways), used again -- every key type with a key locator
+    for label, steps in signer_histories(ctx):
+        run_signer_history(ctx, M, keys, label, steps)
     # 4. signature lengths: the (reserved, actual) triangle x packet lengths around the length-encoding boundaries
     tri = [(r, a) for r in [0, 1, 2, 3, 9, 32, 64, 71, 72, 73, 104, 139, 140, 250, 251, 252] for a in {0, 1, r // 2, max(0, r - 2), max(0, r - 1), r} if a <= r]
     tri += [(253, 253), (253, 252), (256, 256), (300, 300), (300, 10), (72, 73), (0, 1)]
@@ -567,6 +846,18 @@ def replay(ctx, data):
     from harness.lib.core import unjson
     case = unjson(data.get('case'))
     case.pop('wire', None)
+    if 'history' in case:          # a signer history: repeat the steps on one signer object, then the failing issuance
+        hist = case.pop('history')
+
+        def fix(st):
+            st = list(st)
+            if st[0] == 'issue':
+                st[1] = {k: (list(v) if k in ('now', 'now2', 'start', 'end', 'issuer', 'key_name') else v) for k, v in st[1].items()}
+            return st
+        steps = [fix(st) for st in hist] + [fix(['issue', case])]
+        print('signer:', case.get('signer'), 'steps:', steps)
+        run_signer_history(ctx, ctx.call, P.Keys.get(), case['signer'], steps, verbose=True)
+        return
     for k in ('now', 'now2', 'start', 'end'):
         if k in case:
             case[k] = list(case[k])
